@@ -553,9 +553,14 @@ def feature_tags(scn):
     tags.add("grid:freq=" + g.get("freq", "h"))
     tags.add("mode:" + scn.get("mode", "mono").split(":")[0])
 
+    G = Grid.from_json(g)
+
     def walk(a, prefix=""):
         t = a["type"]
         tags.add("has:" + prefix + t)
+        if (a.get("start") or a.get("end")) and not G.window(a.get("start"), a.get("end"), scn.get("date_tz")):
+            tags.add("empty_window")
+            tags.add("empty_window:" + prefix + t)
         for k, v in a.items():
             if k.startswith("_") or k in _SKIP_PARAMS:
                 continue
